@@ -19,6 +19,12 @@ the handlers around them, as source text in source order: removing, weakening or
 theorem htlcid_guards_pinned : Irismod.Gen.PureHtlcId.guards =
     [] := rfl
 
+/-- every statement of these functions executed for its effect — a call whose result is dropped (store and bank
+writes, queue moves, hooks) or a write to a record field — with its nesting depth, in source order: a write that is
+dropped, duplicated, reordered or moved into or out of a branch breaks this -/
+theorem htlcid_effects_pinned : Irismod.Gen.PureHtlcId.effects =
+    [] := rfl
+
 theorem Uint64ToBigEndian_eq_model (n : Nat) : Uint64ToBigEndian n = be64 n := rfl
 
 /-- `GetHashLock` = the model's `genLock` (as bytes), for every secret and timestamp -/
